@@ -10,6 +10,9 @@
 (*  Remove(p)   remove_service_from_discovery: announce(true) (every own    *)
 (*              record with the cache-flush bit), then clear() the WHOLE    *)
 (*              store (own records and everything learnt); threads go on    *)
+(*  RemoveAsync(p), Advertise(p)  the same call of the tokio flavour: the   *)
+(*              goodbye is only queued for the executor task, the store is  *)
+(*              cleared at once, the executor serves the queue afterwards   *)
 (*  Deliver(m)  receive loop: a response is ingested (add_cached_resource:  *)
 (*              expiry = now + TTL, or now + 1 s with the cache-flush bit); *)
 (*              a query is answered from the authoritative records only     *)
@@ -26,9 +29,10 @@
 (* "srv" iff it has a port (Ported).  cache[p][q][k] is what p has cached   *)
 (* of kind k of q's instance: expiry and refresh time (0 = never seen).     *)
 (***************************************************************************)
-EXTENDS Naturals, FiniteSets
+EXTENDS Naturals, FiniteSets, Sequences
 
 CONSTANTS Peers, Ported, TTL, MaxTime, Lossy,
+          Async,        \* the peers that use the tokio flavour (async_discovery::ServiceDiscovery)
           KeepLater     \* deviation (negative configuration): a re-received record keeps the later expiry
 
 Kinds == {"srv", "txt", "addr"}
@@ -36,8 +40,10 @@ KindsOf(q) == IF q \in Ported THEN Kinds ELSE {"txt", "addr"}
 PollPeriod == 5
 RefOff(ttl) == IF ttl = 0 THEN 0 ELSE IF ttl < 60 THEN ttl \div 2 ELSE (ttl \div 10) * 8
 
-VARIABLES phase, cache, net, now, nextPoll, startAt, lastFrom
-vars == <<phase, cache, net, now, nextPoll, startAt, lastFrom>>
+VARIABLES phase, cache, net, now, nextPoll, startAt, lastFrom,
+          advq,      \* tokio flavour: the advertise requests (cache_flush flags) queued for the executor task
+          byeSent    \* history: a goodbye packet of this peer was put on the wire
+vars == <<phase, cache, net, now, nextPoll, startAt, lastFrom, advq, byeSent>>
 
 None == [exp |-> 0, ref |-> 0]
 Others(p) == Peers \ {p}
@@ -48,6 +54,8 @@ Init == /\ phase = [p \in Peers |-> "off"]
         /\ nextPoll = [p \in Peers |-> 0]
         /\ startAt = [p \in Peers |-> 0]
         /\ lastFrom = [p \in Peers |-> [q \in Peers |-> [kind |-> "none", at |-> 0]]]
+        /\ advq = [p \in Peers |-> <<>>]
+        /\ byeSent = [p \in Peers |-> FALSE]
 
 Cast(src, kind, recs) == {[src |-> src, kind |-> kind, recs |-> recs, dst |-> d, sent |-> now] : d \in Others(src)}
 
@@ -55,20 +63,47 @@ Cast(src, kind, recs) == {[src |-> src, kind |-> kind, recs |-> recs, dst |-> d,
 \* address records of the SRV target -- an instance without a port has no SRV, hence no addresses in the reply
 ReplyRecs(q) == IF q \in Ported THEN Kinds ELSE {"txt"}
 
+\* sync flavour: new_with_scope announces and queries before it returns.  tokio flavour: the executor task
+\* queries when it starts and the constructor queues an advertise request (a second one a second later, not
+\* modelled: it repeats the first)
 Start(p) ==
   /\ phase[p] = "off"
   /\ phase' = [phase EXCEPT ![p] = "on"]
-  /\ net' = net \cup Cast(p, "ann", KindsOf(p)) \cup Cast(p, "query", {})
+  /\ IF p \in Async
+     THEN net' = net \cup Cast(p, "query", {}) /\ advq' = [advq EXCEPT ![p] = Append(@, FALSE)]
+     ELSE net' = net \cup Cast(p, "ann", KindsOf(p)) \cup Cast(p, "query", {}) /\ UNCHANGED advq
   /\ nextPoll' = [nextPoll EXCEPT ![p] = now + PollPeriod]
   /\ startAt' = [startAt EXCEPT ![p] = now]
-  /\ UNCHANGED <<cache, now, lastFrom>>
+  /\ UNCHANGED <<cache, now, lastFrom, byeSent>>
 
+\* sync flavour: announce(true) sends the goodbye, then the store is cleared -- one call, nothing in between
 Remove(p) ==
-  /\ phase[p] = "on"
+  /\ p \notin Async /\ phase[p] = "on"
   /\ phase' = [phase EXCEPT ![p] = "gone"]
   /\ net' = net \cup Cast(p, "bye", KindsOf(p))
+  /\ byeSent' = [byeSent EXCEPT ![p] = TRUE]
   /\ cache' = [cache EXCEPT ![p] = [q \in Peers |-> [k \in Kinds |-> None]]]
-  /\ UNCHANGED <<now, nextPoll, startAt, lastFrom>>
+  /\ UNCHANGED <<now, nextPoll, startAt, lastFrom, advq>>
+
+\* tokio flavour: remove_service_from_discovery only QUEUES the goodbye (announce(true) sends a message to the
+\* executor task) and then clears the store at once ...
+RemoveAsync(p) ==
+  /\ p \in Async /\ phase[p] = "on"
+  /\ advq' = [advq EXCEPT ![p] = Append(@, TRUE)]
+  /\ phase' = [phase EXCEPT ![p] = "gone"]
+  /\ cache' = [cache EXCEPT ![p] = [q \in Peers |-> [k \in Kinds |-> None]]]
+  /\ UNCHANGED <<net, now, nextPoll, startAt, lastFrom, byeSent>>
+
+\* ... and the executor task serves the request later, from whatever the store holds by then: after the clear
+\* there is nothing left to announce and no packet is sent (advertise_service: "Failed to advertise service")
+Advertise(p) ==
+  /\ p \in Async /\ advq[p] # <<>>
+  /\ advq' = [advq EXCEPT ![p] = Tail(@)]
+  /\ IF phase[p] = "on"
+     THEN /\ net' = net \cup Cast(p, IF Head(advq[p]) THEN "bye" ELSE "ann", KindsOf(p))
+          /\ byeSent' = [byeSent EXCEPT ![p] = @ \/ Head(advq[p])]
+     ELSE UNCHANGED <<net, byeSent>>
+  /\ UNCHANGED <<phase, cache, now, nextPoll, startAt, lastFrom>>
 
 Stored(old, ttl) ==
   LET e == now + ttl IN
@@ -89,9 +124,9 @@ Deliver(m) ==
             [] m.kind = "query" ->
                  /\ net' = (net \ {m}) \cup (IF phase[d] = "on" THEN Cast(d, "reply", ReplyRecs(d)) ELSE {})
                  /\ UNCHANGED <<cache, lastFrom>>
-  /\ UNCHANGED <<phase, now, nextPoll, startAt>>
+  /\ UNCHANGED <<phase, now, nextPoll, startAt, advq, byeSent>>
 
-Drop(m) == Lossy /\ m \in net /\ net' = net \ {m} /\ UNCHANGED <<phase, cache, now, nextPoll, startAt, lastFrom>>
+Drop(m) == Lossy /\ m \in net /\ net' = net \ {m} /\ UNCHANGED <<phase, cache, now, nextPoll, startAt, lastFrom, advq, byeSent>>
 
 Due(p) == \E q \in Peers, k \in Kinds : cache[p][q][k].exp > 0 /\ cache[p][q][k].ref < now
 
@@ -99,16 +134,17 @@ Poll(p) ==
   /\ phase[p] # "off" /\ nextPoll[p] = now
   /\ net' = IF Due(p) THEN net \cup Cast(p, "query", {}) ELSE net
   /\ nextPoll' = [nextPoll EXCEPT ![p] = now + PollPeriod]
-  /\ UNCHANGED <<phase, cache, now, startAt, lastFrom>>
+  /\ UNCHANGED <<phase, cache, now, startAt, lastFrom, advq, byeSent>>
 
 \* packets are delivered (or lost) within the second they are sent; every due poll runs before time passes
 Tick ==
   /\ now < MaxTime /\ net = {}
   /\ \A p \in Peers : phase[p] # "off" => nextPoll[p] > now
+  /\ \A p \in Peers : advq[p] = <<>>               \* the executor task serves its queue within the second
   /\ now' = now + 1
-  /\ UNCHANGED <<phase, cache, net, nextPoll, startAt, lastFrom>>
+  /\ UNCHANGED <<phase, cache, net, nextPoll, startAt, lastFrom, advq, byeSent>>
 
-Next == \/ \E p \in Peers : Start(p) \/ Remove(p) \/ Poll(p)
+Next == \/ \E p \in Peers : Start(p) \/ Remove(p) \/ RemoveAsync(p) \/ Advertise(p) \/ Poll(p)
         \/ \E m \in net : Deliver(m) \/ Drop(m)
         \/ Tick
 
@@ -140,12 +176,17 @@ NothingForeign == \A p \in Peers, q \in Peers : \A k \in Kinds \ KindsOf(q) : ca
 \* without loss, two running peers know each other from the second after the later one started ...
 Prompt ==
   ~Lossy => \A p \in Peers : \A q \in Others(p) :
-     (phase[p] = "on" /\ phase[q] = "on" /\ net = {} /\ now = (IF startAt[p] > startAt[q] THEN startAt[p] ELSE startAt[q]))
+     (phase[p] = "on" /\ phase[q] = "on" /\ net = {} /\ advq[p] = <<>> /\ advq[q] = <<>>
+      /\ now = (IF startAt[p] > startAt[q] THEN startAt[p] ELSE startAt[q]))
         => q \in Known(p)
 \* ... and keep knowing each other for as long as both run (the refresh query arrives before the records expire)
 Stable ==
   ~Lossy => \A p \in Peers : \A q \in Others(p) :
-     (phase[p] = "on" /\ phase[q] = "on" /\ net = {}
+     (phase[p] = "on" /\ phase[q] = "on" /\ net = {} /\ advq[p] = <<>> /\ advq[q] = <<>>
       /\ now >= (IF startAt[p] > startAt[q] THEN startAt[p] ELSE startAt[q]))
         => q \in Known(p)
+
+\* a peer that has left said goodbye (holds for the sync flavour by construction of Remove; for the tokio
+\* flavour TLC finds the run in which the queued goodbye is served after the clear and nothing is sent)
+RemoveSaysGoodbye == \A p \in Peers : (phase[p] = "gone" /\ advq[p] = <<>>) => byeSent[p]
 =============================================================================
